@@ -164,7 +164,7 @@ theorem llE_cons_cons (e e' : Expr) (r : List Expr) :
   intro h; cases h
 
 theorem llE_isNode : ∀ (e : Expr) (r : List Expr), ∃ args, llE (e :: r) = .node .ite args
-  | e, [] => ⟨_, rfl⟩
+  | _, [] => ⟨_, rfl⟩
   | e, e' :: r => ⟨_, llE_cons_cons e e' r⟩
 
 theorem lineLength_eq : ∀ es : List Expr, lineLength es = .ok (llE es)
@@ -208,3 +208,87 @@ theorem good_llE (segs : List Seg) (H W : Nat) :
         simp [evalOp, allInts]
       rw [hadd]
       cases h : onOf H W σ s <;> simp [evalOp]
+
+/-! ### `fold_or(ends).then(line_length(back) + line_length(forth) == n)` -/
+
+section Arm
+variable (H W : Nat)
+
+/-- closed form of `fold_or` on segment variables. -/
+def foE (es : List Expr) : Expr := if es.isEmpty then .node .boolConst [.litB false] else .node .or es
+
+theorem foldOr_go_segs : ∀ (segs : List Seg) (acc : List Expr),
+    foldOr.go (segs.map (segExpr 0 H W)) acc = .ok (foE (acc.reverse ++ segs.map (segExpr 0 H W)))
+  | [], acc => by
+    simp only [List.map_nil, foldOr.go, List.append_nil, foE]
+    cases acc <;> simp
+  | s :: r, acc => by
+    have h := foldOr_go_segs r (segExpr 0 H W s :: acc)
+    simp only [List.reverse_cons, List.append_assoc, List.singleton_append] at h
+    simp only [List.map_cons]
+    rw [← h]
+    simp [foldOr.go, segExpr, Expr.isBoolExpr]
+
+theorem foldOr_segs (segs : List Seg) : foldOr (segs.map (segExpr 0 H W)) = .ok (foE (segs.map (segExpr 0 H W))) := by
+  have := foldOr_go_segs H W segs []
+  simpa [foldOr] using this
+
+theorem good_foE (segs : List Seg) :
+    Good (foE (segs.map (segExpr 0 H W))) (fun σ => segs.any fun s => onOf H W σ s) := by
+  unfold foE
+  cases segs with
+  | nil => exact ⟨rfl, rfl, fun σ => by simp [eval_node, evalOp]⟩
+  | cons s r =>
+    simp only [List.map_cons, List.isEmpty_cons, Bool.false_eq_true, if_false]
+    have hwt : wtBs ((s :: r).map (segExpr 0 H W)) = true := by
+      generalize (s :: r) = l
+      induction l with
+      | nil => rfl
+      | cons a l ih => simp [wtBs, ih, segExpr, wtB]
+    refine ⟨rfl, by simpa [wtB] using hwt, fun σ => ?_⟩
+    rw [← List.map_cons, eval_node, List.map_map]
+    have : (List.map (eval σ ∘ segExpr 0 H W) (s :: r)) = ((s :: r).map fun t => onOf H W σ t).map fun b => some (.b b) := by
+      rw [List.map_map]; apply List.map_congr_left; intro t _; simp [segExpr, onOf]
+    rw [this, evalOp_or]
+    simp [List.any_map]
+
+/-- closed form of one `solver.ensure(fold_or(...).then(... == n))`. -/
+def armE (ends back forth : List Seg) (n : Int) : Expr :=
+  .node .imp [foE (ends.map (segExpr 0 H W)),
+    eqE (addE (llE (back.map (segExpr 0 H W))) (llE (forth.map (segExpr 0 H W)))) n]
+
+theorem armCs_eq (ends back forth : List Seg) (n : Int) :
+    armCs (ends.map (segExpr 0 H W)) (back.map (segExpr 0 H W)) (forth.map (segExpr 0 H W)) n
+      = .ok (armE H W ends back forth n) := by
+  unfold armCs
+  have ga := good_llE back H W
+  have gb := good_llE forth H W
+  have gs := good_add ga gb
+  have ge := good_eq gs n
+  have gf := good_foE H W ends
+  rw [foldOr_segs, ok_bind, lineLength_eq, ok_bind, lineLength_eq, ok_bind, addPy_eq ga.1 gb.1, ok_bind,
+    cmpPy_eq gs.1, ok_bind]
+  have hb : binB .imp (foE (ends.map (segExpr 0 H W)))
+      (eqE (addE (llE (back.map (segExpr 0 H W))) (llE (forth.map (segExpr 0 H W)))) n)
+      = .ok (armE H W ends back forth n) := by
+    simp [binB, makeBoolExpr, Op.isCmp, gf.1, ge.1, armE, bind, Except.bind]
+  rw [hb, ok_bind]
+  simp [ensure1, armE, Expr.isBoolLike, Op.isBoolOp]
+
+theorem good_armE (ends back forth : List Seg) (n : Int) :
+    Good (armE H W ends back forth n) (fun σ =>
+      !(ends.any fun s => onOf H W σ s) ||
+        ((((back.takeWhile fun s => onOf H W σ s).length : Nat) : Int) +
+          (((forth.takeWhile fun s => onOf H W σ s).length : Nat) : Int) == n)) := by
+  have ga := good_llE back H W
+  have gb := good_llE forth H W
+  have gs := good_add ga gb
+  have ge := good_eq gs n
+  have gf := good_foE H W ends
+  refine ⟨rfl, by simp [armE, wtB, wtBs, gf.2.1, ge.2.1], fun σ => ?_⟩
+  unfold armE
+  rw [eval_node]
+  simp only [List.map_cons, List.map_nil, gf.2.2 σ, ge.2.2 σ]
+  rw [evalOp_imp]
+
+end Arm
